@@ -73,18 +73,25 @@ func Main(prop string) {
 	if prop == "C12" {
 		per = run.Pick(40, 600)
 	}
-	total := len(faces) * per
+	nRandom := len(faces) * per
+	total := nRandom + SweepSize(faces)
+	genCase := func(i int) *Case {
+		if i >= nRandom {
+			return SweepCase(i-nRandom, faces)
+		}
+		return GenCase(run.Seed, i, faces, utils)
+	}
 
 	if run.Worker {
 		run.WorkerLoop(cpuBudget, func(i int) {
-			one(GenCase(run.Seed, i, faces, utils))
+			one(genCase(i))
 		})
 		run.Finish(vrun.Level{})
 	}
 
 	run.Extra("faces", len(faces))
 	run.RunChildren(vrun.ChildCfg{N: total, Chunk: 2000, MemKiB: 8 << 20, StallWall: 10 * time.Minute}, func(d vrun.Death) {
-		c := GenCase(run.Seed, d.Case, faces, utils)
+		c := genCase(d.Case)
 		switch d.Kind {
 		case "cpu":
 			run.Violation("C01/cpu-budget", fmt.Sprintf("shaping exceeded the CPU budget of %.0fs (confirmed alone): %s", cpuBudget, vrun.FatalHead(d.Detail)), c)
@@ -92,7 +99,8 @@ func Main(prop string) {
 			run.Violation("C01/fatal/"+vrun.FatalHead(d.Detail), "shaping killed the process (confirmed alone): "+d.Detail, c)
 		}
 	})
-	rule := "case i: face = corpus face (i mod #faces), text from {cmap-local, per-script alphabets incl. ill-formed sequences, special classes, real text, upstream trigger strings and mutations}, run bounds inside/at edges/outside/swapped, LTR/RTL/TTB/BTT(+sideways), script (guessed/0/random), language, size 1..4096px incl. fractional, feature lists (global, ranged at buffer level), variation coordinates, shaping.Shape or harfbuzz.Buffer.Shape with random flags and cluster level. "
+	run.Extra("pair_sweep_cases", SweepSize(faces))
+	rule := "systematic sweep: every (letter, mark) pair of 21 script alphabets x 2 orders x 4 directions x {shaping.Shape, 3 buffer cluster levels} x {covering face, fixed face}; then case i: face = corpus face (i mod #faces), text from {cmap-local, per-script alphabets incl. ill-formed sequences, special classes, real text, upstream trigger strings and mutations}, run bounds inside/at edges/outside/swapped, LTR/RTL/TTB/BTT(+sideways), script (guessed/0/random), language, size 1..4096px incl. fractional, feature lists (global, ranged at buffer level), variation coordinates, shaping.Shape or harfbuzz.Buffer.Shape with random flags and cluster level. "
 	if prop == "C01" {
 		rule += "non-trivial = >=1 glyph and (glyph count != rune count, or a multi-glyph/multi-rune cluster, or non-LTR direction, or sub-run with context, or features); distinct by hash(font,text,bounds,direction,script,features)"
 	} else {
